@@ -197,9 +197,10 @@ def value_is_rlp_of(an, term, argidx):
     # look through byte-preserving conversions
     cur = e
     for _ in range(6):
-        if cur.k == "call" and cur.a[0].name == "freeze" and cur.a[0].krate == "bytes":
-            # find the BytesMut local that is frozen
-            buf_local = _find_frozen_local(an, op)
+        by_from = cur.k == "mutated" and isinstance(cur.a[1], int) and cur.a[1] < len(an.fn.locals) and "BytesMut" in an.fn.locals[cur.a[1]]["ty"].get("s", "") and cur is not e
+        if (cur.k == "call" and cur.a[0].name == "freeze" and cur.a[0].krate == "bytes") or by_from:
+            # find the BytesMut local that is frozen (`buf.freeze()`, or `Bytes::from(buf)`, which is the same conversion)
+            buf_local = cur.a[1] if by_from else _find_frozen_local(an, op)
             if buf_local is None:
                 return {"kind": "unknown", "expr": e}
             muts = buffer_fill(an, buf_local)
